@@ -1,7 +1,7 @@
 (* C04 — property theorems.  Only statements, each closed by [exact], each followed by
    Print Assumptions. *)
 From Coq Require Import ZArith List Bool.
-From Centro Require Import Base.Sx Model.Recon Spec.ReconSpec Spec.ReconInv Proofs.ReconSound Proofs.ReconLoop Proofs.ReconPrep.
+From Centro Require Import Base.Sx Model.Recon Spec.ReconSpec Spec.ReconInv Proofs.ReconSound Proofs.ReconLoop Proofs.ReconPrep Proofs.ReconOrder.
 Open Scope Z_scope.
 
 (* Full.  Any image R (e.g. the implementation's output) accepted by the extracted checker,
@@ -192,3 +192,81 @@ Theorem C04_nth_padded_plane : forall H W p0 p1 fill gimg i, 1 <= H -> 1 <= W ->
   if interior_b g i then img_get gimg (i / gPW g - p0) (i mod gPW g - p1) else fill.
 Proof. exact nth_padded_plane. Qed.
 Print Assumptions C04_nth_padded_plane.
+
+(* ---- round 3 ---- *)
+(* Full.  The three value-level facts hold for every accepted input (padding >= 1). *)
+Theorem C04_padded_values_facts : forall image mask fp,
+  accepted_common image mask fp = true -> 1 <= zlen fp / 2 -> 1 <= width fp / 2 ->
+  let g := mkgeom (zlen image) (width image) (zlen fp / 2) (width fp / 2) in
+  let values := prep_values image mask fp in
+  let val := fun i => nth (Z.to_nat i) values 0 in
+  geom_ok g /\
+  (forall i, 0 <= i < gS g -> interior_b g i = false ->
+     val i = img_min image /\ val (i + gS g) = img_min image) /\
+  (forall j, 0 <= j < 2 * gS g -> img_min image <= val j) /\
+  (forall i, 0 <= i < gS g -> val i <= val (i + gS g)).
+Proof. exact padded_values_facts. Qed.
+Print Assumptions C04_padded_values_facts.
+
+(* Full — the unconditional form of C04_model_safe_partial: for EVERY accepted input with
+   footprint dimensions >= 3 (offset=None) the complete model (wrapper set-up, loop, gather) never
+   reads or writes outside its arrays, never drops a node from the list, and returns an image of
+   the input's height.  No per-instance premise. *)
+Theorem C04_model_safe : forall image mask fp,
+  accepted image mask fp = true -> 3 <= zlen fp -> 3 <= width fp ->
+  match grey_reconstruction image mask fp with
+  | Ok (out, d) => d = 0 /\ zlen out = zlen image
+  | OutOfFuel => True
+  | Oob => False
+  | Rejected => False
+  end.
+Proof. exact model_safe_full. Qed.
+Print Assumptions C04_model_safe.
+
+(* Full — recon_loop_closed.  For every state satisfying Inv and the order invariant Ord (ghost
+   positions: next = immediate successor in position order, values sorted by position, prev/next
+   mutually consistent, every interior node before `current` final): when the while loop returns,
+   NO dilate-and-clip step along any stride can raise any interior pixel.  The proof shows on the
+   way that the list stays value-sorted (o_val preserved by every unlink/relink). *)
+Theorem C04_loop_closed : forall g K v0 strides, geom_ok g -> Forall (stride_ok g) strides ->
+  forall fuel cur s pos, Inv g K strides v0 s -> Ord g strides s cur pos -> -1 <= cur < 2 * gS g ->
+  match loop fuel (gS g) strides cur s with
+  | Ok s' => forall p, 0 <= p < gS g -> interior_b g p = true -> closed_at g strides s' p
+  | _ => True
+  end.
+Proof. exact loop_closed. Qed.
+Print Assumptions C04_loop_closed.
+
+(* Full — termination: under the same invariants the fuel bounds the iterations (the number of
+   nodes not before `current` strictly decreases with every iteration of the while loop). *)
+Theorem C04_loop_fuel : forall g K v0 strides, geom_ok g -> Forall (stride_ok g) strides ->
+  forall fuel cur s pos, Inv g K strides v0 s -> Ord g strides s cur pos -> -1 <= cur < 2 * gS g ->
+  (1 <= fuel)%nat -> (cur <> -1 -> (cnt g pos cur < fuel)%nat) ->
+  loop fuel (gS g) strides cur s <> OutOfFuel.
+Proof. exact loop_fuel. Qed.
+Print Assumptions C04_loop_fuel.
+
+(* Full — total correctness of the loop in flat/rank space from both invariants: with the fuel
+   2S+1 the model uses, the loop returns (no out-of-bounds access, no fuel exhaustion), drops no
+   node, and its result satisfies Inv (between the initial image plane and the mask plane, below
+   every post-fixed image) and is closed under the step: it IS the least fixed point in flat space.
+   Partial with respect to grey_reconstruction_model_correct: missing are
+   (a) setup_ord : the wrapper's set-up state satisfies Ord with pos = index in the lexsort order
+       (needs the exact successor table of link_pairs; setup_inv already gives Inv), and
+   (b) the bridge flat/rank space -> GridRecon (value_map monotone: from C18; strides <-> offsets;
+       C04_nth_padded_plane; the gather of `finish`). *)
+Theorem C04_loop_total_partial : forall g K v0 strides, geom_ok g -> Forall (stride_ok g) strides ->
+  forall cur s pos, Inv g K strides v0 s -> Ord g strides s cur pos -> -1 <= cur < 2 * gS g ->
+  exists s', loop (Datatypes.S (Z.to_nat (2 * gS g))) (gS g) strides cur s = Ok s' /\
+    Inv g K strides v0 s' /\ drops s' = drops s /\
+    forall p, 0 <= p < gS g -> interior_b g p = true -> closed_at g strides s' p.
+Proof. exact loop_total. Qed.
+Print Assumptions C04_loop_total_partial.
+
+(* Full: the boolean Ord checker is sound.  It is evaluated by the extracted program on the set-up
+   state of every small generated case (premise of C04_loop_total_partial discharged per instance,
+   with pos = index in the lexsort order). *)
+Theorem C04_ord_check_sound : forall g strides s cur posa,
+  ord_check g strides s cur posa = true -> Ord g strides s cur (sel posa).
+Proof. exact ord_check_sound. Qed.
+Print Assumptions C04_ord_check_sound.
